@@ -53,6 +53,41 @@ CHECKS = {
         "1..2049 tracked jobs; BFS over histories (run, run X, scheduler transitions, queue forget, lagging accounting, source modification) checking in every state, from a separate invocation, that each row equals the class of the scheduler-visible state of the job accepted at the target's last submission and that the tracked file names exactly those ids.",
         note="State-code classes are my reading of the scheduler documentation (permitted sets where the statement is silent). Local pool restarts: see C13/C14 and DESIGN D7.",
     ),
+    "C06": dict(
+        level="model_checking", design="§4 C06",
+        technique="direct enumeration of job-free project states + exhaustive BFS over the simulated scheduler's legal execution orders; fixpoint and minimal-re-run oracle on the real CLI in every terminal state",
+        text="Every job-free state of the fork/chain (thorough also diamond) workflow: 3^n per-target output freshness x latest-job outcome none/DONE/FAILED/CANCELLED per target (quick: <=2 jobs), slurm/sge/lsf, hashing on/off, selections default and single target. "
+        "After the real `gwf run`, all legal start/finish orders are explored; in every terminal state status must show every cone target with outputs completed and a re-run must submit none; then every single perturbation (each source modified, each output deleted) must make the next run submit exactly the reference set (thorough: iterated twice).",
+        note="Premise of the property (jobs succeed and create their outputs) is built into the simulator step; simulators are assumptions.",
+    ),
+    "C07": dict(
+        level="model_checking", design="§4 C07",
+        technique="explicit-state BFS over gwf invocations and all scheduler schedules; invariant on the enabledness of every pending job against independently recorded prerequisite sets",
+        text="BFS to depth 6-7 (thorough deeper) over {run, run X, run Y, start, finish_ok, finish_fail, timeout, cancel} on diamond/fork/chain x slurm/sge/lsf. For every job the harness records from the reference graph which jobs it must wait for; "
+        "in every reachable state: the dependency spec parsed by the simulator's own reader names exactly those ids in the documented form (afterok / hold_jid list / conjunction of done()), and start(j) is enabled iff all of them are DONE (Slurm, LSF) or ended (SGE).",
+        note="Dependency semantics of the three schedulers as implemented in mc/simsched.py (unknown ids rejected by Slurm/LSF, ignored by SGE).",
+    ),
+    "C09": dict(
+        level="fault_enumeration", design="§4 C09",
+        technique="exhaustive fault injection at every scheduler-command position x 5 failure kinds and crash snapshots at every scheduler interaction and every open/write/close of a state-file write; follow-up commands checked against the scheduler's accepted-job table",
+        text="chain/fork (thorough + diamond) x slurm/sge/lsf x {fresh project, one job in flight}, hashing on. Every command index of the run x {exit 1, 'error:' on stderr, garbage stdout, empty stdout, Python exception}; "
+        "kill -9 snapshots before/after every scheduler command and at open / each write / close of every state-file write. From every resulting state: status and run start normally, no duplicate of an accepted pending/running job, follow-up submissions name accepted jobs as prerequisites, hash records only for accepted targets.",
+        note="One known finding (KF-C09-accept-window): kill between the scheduler's acceptance and the rename of the tracked file. Kill = process death, not power loss.",
+    ),
+    "C17": dict(
+        level="model_checking", design="§4 C17",
+        technique="explicit-state BFS to reach every mix of job states; per state exhaustive selection x failing-cancel-position enumeration on the real CLI; function-level permutation enumeration of the selected set",
+        text="States reached by BFS (depth 5, thorough 7) over {run, run X, start, finish_ok, finish_fail, forget} for slurm/sge/lsf. Per state 13 selections (none with prompt y/n/EOF, -f, each name, patterns, non-matching, two names) and for multi-target selections the k-th cancel command failing (exit 1 / 'error:' on stderr) for every k. "
+        "Cancel requests = latest jobs of the selected targets (each once, all live ones, nothing else); failures reported and not stopping later cancels; declined prompt changes nothing; after the scheduler carried the cancellations out status = reference plan and the next run submits what the plan requires. cancel_many: every permutation of <=3 targets x failing/untracked subsets.",
+        note="Simulated scancel/qdel/bkill; local pool cancel: C13/C14.",
+    ),
+    "C18": dict(
+        level="model_checking", design="§4 C18",
+        technique="explicit-state BFS over command histories with a reference record map compared after every transition",
+        text="17-action alphabet {run, run X, run -d, status, touch, touch X, clean --all -f, clean X, clean -f, edit spec (2), config set use_spec_hashes on/off via the real CLI, rename, remove, run with k-th submission rejected (2), all jobs finish} from three initial worlds (enabled/no file, enabled/all recorded, disabled) to depth 3 (thorough 4). "
+        "After every transition: hash file (absent = {}) equals the reference map; `gwf status` equals the reference plan under those records.",
+        note="Slurm simulator only (hash logic is backend independent).",
+    ),
 }
 
 PENDING = {
